@@ -26,7 +26,7 @@ python3 - "$TMP" "$PROP" "$a386" > "$ST" <<'PY'
 import json, sys, os
 tmp, prop, a386 = sys.argv[1], sys.argv[2], sys.argv[3]
 def lines(f):
-    return [l.rstrip('\n') for l in open(os.path.join(tmp, f)) if l.strip()]
+    return [l.rstrip('\n') for l in open(os.path.join(tmp, f), errors='replace') if l.strip()]
 variants = [l.strip() for l in open(os.path.join(tmp, 'variants')) if l.strip()]
 det, undet, noapply, samples = [], [], [], []
 seen = set()
@@ -40,6 +40,10 @@ for l in lines('v.out'):
         if len(samples) < 4: samples.append({'variant': name, 'report': p[3].strip() if len(p) > 3 else ''})
     elif len(p) >= 3:
         undet.append(name); seen.add(name)
+for v in variants:
+    lab = v.split('/')[-2] if v.startswith('seeded/') else v.split('/')[-1]
+    if lab not in seen:
+        undet.append(lab + ' (the variant run produced no verdict)')
 silent, noisy = [], []
 for l in lines('b.out'):
     p = l.split(' ', 3)
@@ -50,6 +54,9 @@ for l in lines('b.out'):
 # name seeded variants by their directory
 def label(path):
     return path.split('/')[-2] if path.startswith('seeded/') else path.split('/')[-1]
+nb = len([l for l in open(os.path.join(tmp, 'benign')) if l.strip()])
+if nb and len(silent) + len(noisy) == 0:
+    noisy.append('no benign variant produced a verdict')
 json.dump({
  'variants': len(variants), 'variant_names': [label(v) for v in variants],
  'detected': len(det), 'undetected': undet, 'not_applicable_to_current_tree': noapply,
